@@ -33,6 +33,9 @@ Step ==
       [] e.ev = "WriteCounts"      -> WriteCounts(e.rets, e.lens, e.errs)
       [] e.ev = "AsIdentifierName" -> AsIdentifierName(e.r)
       [] e.ev = "AsDecimalLiteral" -> AsDecimalLiteral(e.r)
+      [] e.ev = "IsIdentifierStart"    -> IsIdentifierStart(e.r)
+      [] e.ev = "IsIdentifierContinue" -> IsIdentifierContinue(e.r)
+      [] e.ev = "IsIdentifierEnd"      -> IsIdentifierEnd(e.r)
       [] e.ev = "IsIdent"          -> IsIdent(e.r)
       [] e.ev = "IsURLUnquoted"    -> IsURLUnquoted(e.r)
       [] e.ev = "LenUint"          -> LenUint(e.r)
